@@ -10,6 +10,10 @@ A *pipeline case* is a dict:
   strategy   {'kind': …, 'params': {…}, 'seed': n}
   refuse     list of thread names whose start is refused
   read_fault None | n   (the n-th read() call on a content file raises OSError(EIO))
+  raw_fault  None | plan   (added for C01; default off) content files are opened as io.BufferedReader over a raw file
+             that follows the fault plan of harness/impl/rawfault.py: short raw reads, raw read / seek calls that
+             raise an errno or MemoryError — a read() then consumes bytes before it raises, as in production;
+             the plan's bookkeeping (calls, fired, reads) is returned as obs['raw_fault']
   hash_fault None | [[hasher name, n], …]   (the n-th sha1() call made by that hasher thread raises
              MemoryError inside HasherPool._handle_piece; n counts from 1; added for C01)
   max_steps
@@ -149,6 +153,12 @@ def run_case(torf, wd, c):
     if c.get('read_fault') is not None or c.get('count_reads'):
         import builtins
         S.open = lambda p, mode='r', *a, **k: _FaultyFile(builtins.open(p, mode, *a, **k), plan)
+    raw_plan = None
+    if c.get('raw_fault') is not None:
+        import copy
+        from harness.impl import rawfault
+        raw_plan = copy.deepcopy(c['raw_fault'])
+        S.open = rawfault.open_factory(raw_plan)
     calls = []
     cb_exc = CbError('callback says no')
     cb_base_exc = CbBaseError('callback interrupted')
@@ -212,6 +222,7 @@ def run_case(torf, wd, c):
         'total': len(want_pieces) // 20,
         'read_calls': plan['calls'], 'fault_fired': plan['fired'],
         'hash_fault_fired': hash_plan['fired'],
+        'raw_fault': raw_plan,
         'gate_nows': gate_nows,
         'structure': {'pq_max': sched.queues[0].maxsize if sched.queues else None,
                       'hq_max': sched.queues[1].maxsize if len(sched.queues) > 1 else None},
